@@ -325,6 +325,12 @@ func (c *Conn) init(ctx context.Context, dialedHost *DialedHost) error {
 	}
 
 	c.timeout = c.cfg.Timeout
+	if c.timeout <= 0 {
+		// The handshake read its frame bodies under deadlines taken from ConnectTimeout.
+		// Without a request timeout nothing arms or clears a read deadline from here on,
+		// so the last one must not stay behind (it would end the idle connection).
+		c.conn.SetReadDeadline(time.Time{})
+	}
 
 	// dont coalesce startup frames
 	if c.session.cfg.WriteCoalesceWaitTime > 0 && !c.cfg.disableCoalesce && !dialedHost.DisableCoalesce {
